@@ -20,7 +20,7 @@ class Ob:
         self.where, self.nontrivial, self.path, self.cfg = where, nontrivial, path, cfg
 
     def to_json(self):
-        d = {"rule": self.rule, "key": self.key, "verdict": "holds" if self.ok else "VIOLATED", "detail": self.detail}
+        d = {"rule": self.rule, "key": self.key, "verdict": "holds" if self.ok else ("UNRECOGNISED" if self.ok is None else "VIOLATED"), "detail": self.detail}
         if self.where:
             d["where"] = self.where
         if self.path:
@@ -56,7 +56,7 @@ class Ctx:
         full = "%s/%s/%s" % (self.pid, rule, key)
         if self.cfg and self.cfg != "lib":
             pass
-        self.obs.append(Ob(rule, full, bool(ok), detail, where, nontrivial, path, self.cfg))
+        self.obs.append(Ob(rule, full, None if ok is None else bool(ok), detail, where, nontrivial, path, self.cfg))
         return bool(ok)
 
     def fn_seen(self, fn):
@@ -100,7 +100,8 @@ def finish(ctx, explanation, technique):
     obs = ctx.obs
     if ctx.only_key:
         obs = [o for o in obs if o.key == ctx.only_key]
-    bad = [o for o in obs if not o.ok]
+    bad = [o for o in obs if o.ok is False]
+    unrecognised = [o for o in obs if o.ok is None]
     # de-duplicate by key (+config)
     seen = set()
     uniq_bad = []
@@ -185,4 +186,12 @@ def finish(ctx, explanation, technique):
         json.dump(ev, fh, indent=1)
     print("%s [%s]: %d obligations, %d hold, %d known findings, %d new violations, %d functions, %.1fs" % (
         ctx.pid, ctx.tier, len(obs), len([o for o in obs if o.ok]), len(printed_known), len(new), len(ctx.analysed_fns), wall))
-    return 1 if new else 0
+    if new:
+        return 1
+    if unrecognised:
+        # the code no longer has a shape this rule can judge: no verdict (neither "holds" nor a violation)
+        for o in unrecognised[:5]:
+            print("  rule %s: %s" % (o.rule, o.detail))
+        print("CHECK-UNUSABLE property=%s: %d obligation(s) could not be decided on this tree (unrecognised shape: %s)" % (ctx.pid, len(unrecognised), ", ".join(sorted({o.key for o in unrecognised}))[:300]))
+        return 2
+    return 0
